@@ -7,6 +7,7 @@
 From Coq Require Import List NArith Bool Arith.
 Require Import Mistral.Model.Sched Mistral.Model.SchedLegacy.
 Require Import Mistral.Proofs.SchedProofs Mistral.Proofs.SchedLive Mistral.Proofs.SchedLegacyProofs.
+Require Import Mistral.Gen.SchedQuery.
 Import ListNotations.
 Open Scope N_scope.
 
@@ -93,29 +94,45 @@ Proof. exact crash_recovery. Qed.
 Print Assumptions C13_crash_recovery.
 
 (* has_scheduled_jobs(key, processing=False): never misses a waiting job the caller can see ... *)
-Theorem C13_pending_query_complete : forall st i tx key r,
-  In r (visible st tx) -> rkey r = key -> rcap r = None -> has_jobs st i tx key false = true.
+Theorem C13_pending_query_complete : forall c st i tx key r,
+  In r (visible st tx) -> rkey r = key -> rcap r = None -> has_jobs c st i tx key false = true.
 Proof. exact pending_query_complete. Qed.
 Print Assumptions C13_pending_query_complete.
 
-(* ... and is exact when the instance holds no in-memory copy of an uncaptured job with that key *)
-Theorem C13_pending_query_exact : forall st i tx key,
-  (forall m, In m (mem st) -> mi m = i -> mkey m = key -> mcap m <> None) ->
-  (has_jobs st i tx key false = true <->
+(* ... and is exact when the answer does not come from memory: the code asks the store only (qmem = false)
+   or the instance holds no in-memory copy of an uncaptured job with that key *)
+Theorem C13_pending_query_exact : forall c st i tx key,
+  (qmem c = false \/ forall m, In m (mem st) -> mi m = i -> mkey m = key -> mcap m <> None) ->
+  (has_jobs c st i tx key false = true <->
    exists r, In r (visible st tx) /\ rkey r = key /\ rcap r = None).
 Proof. exact pending_query_exact. Qed.
 Print Assumptions C13_pending_query_exact.
 
-(* FINDING: without that proviso the property text fails - the in-memory copy of a job whose
-   transaction rolled back is reported as pending although no such job exists *)
-Theorem C13_pending_query_refuted :
-  exists c steps i key,
-    let st := run c steps init in
-    has_jobs st i None key false = true /\
-    (forall r, In r (visible st None) -> rkey r <> key) /\
-    (exists j, In j (rolled st) /\ In (mkMem i j key None) (mem st)).
+(* FINDING: with the in-memory shortcut the property text fails - the in-memory copy of a job whose
+   transaction rolled back is reported as pending although no such job exists (any configuration) *)
+Theorem C13_pending_query_refuted : forall p t b,
+  let c := mkCfg p t b true in
+  let st := run c phantom_steps init in
+  has_jobs c st 0%nat None 1%nat false = true /\
+  (forall r, In r (visible st None) -> rkey r <> 1%nat) /\
+  (exists j, In j (rolled st) /\ In (mkMem 0%nat j 1%nat None) (mem st)).
 Proof. exact pending_query_refuted. Qed.
 Print Assumptions C13_pending_query_refuted.
+
+(* for the code as it is now (query_uses_memory is generated from default_scheduler.py on every run):
+   either it asks the store only and the query is exact, or it uses the shortcut and the witness applies *)
+Theorem C13_pending_query_current_code :
+  (query_uses_memory = false /\ forall p t b st i tx key,
+     has_jobs (mkCfg p t b query_uses_memory) st i tx key false = true <->
+     exists r, In r (visible st tx) /\ rkey r = key /\ rcap r = None) \/
+  (query_uses_memory = true /\ forall p t b,
+     let c := mkCfg p t b query_uses_memory in
+     let st := run c phantom_steps init in
+     has_jobs c st 0%nat None 1%nat false = true /\
+     (forall r, In r (visible st None) -> rkey r <> 1%nat) /\
+     (exists j, In j (rolled st) /\ In (mkMem 0%nat j 1%nat None) (mem st))).
+Proof. exact (pending_query_status query_uses_memory). Qed.
+Print Assumptions C13_pending_query_current_code.
 
 (* ================= legacy scheduler ================= *)
 
@@ -158,7 +175,7 @@ Print Assumptions C13_legacy_crash_recovery_refuted.
 (* two instances, two jobs; instance 0 runs job 0 from memory, instance 1 picks job 1 up from the
    store after the pickup interval while instance 0 still has it in memory; the hypotheses of
    C13_at_most_once hold along the whole run and both jobs run exactly once *)
-Definition demo_cfg : cfg := mkCfg 2 3 None.
+Definition demo_cfg : cfg := mkCfg 2 3 None true.
 Definition demo_steps : list ev :=
   [Persist 0%nat 0%nat 1 1%nat; Persist 0%nat 0%nat 2 2%nat; Commit 0%nat; Tick 1; Dispatch 0%nat;
    MemStart 0%nat; MemInvoke 0%nat; MemDelete 0%nat; Tick 4; PollSelect 1%nat [1%nat]; PollCapture 0%nat;
